@@ -130,7 +130,7 @@ def refStep (accepting : Bool) (a : Nat) (env : Env) (s : Slot) : LOp → RRes
   | .send data vital => slotModify a s (peerSend env data vital)
   | .flush => slotModify a s (peerFlush env)
   | .sendConnless data =>
-    if data.length > maxPayload then .ok (s, .send .tooLongData, {})
+    if data.length > Tw.Gen.Conn.P6.connlessMax then .ok (s, .send .tooLongData, {})
     else
       match emit [.connless data] with
       | .error e => .error e
